@@ -129,7 +129,8 @@ pub fn check_all(h: &History, level: u8, obs: &mut Obs) -> Vec<(Violation, Fault
     // (i) every write call x ErrorKind
     // very long recordings (many thousand samples = many thousand write calls): a thin slice
     // around the first calls, the last calls and a few non-fatal schedules
-    if r.writes > 3000 {
+    let big = r.bytes.len() > (1 << 20);
+    if r.writes > 3000 || big {
         let mut ks: Vec<usize> = vec![0, 1, 2, 3, r.writes / 2, r.writes - 2, r.writes - 1];
         ks.dedup();
         for k in ks {
@@ -142,11 +143,12 @@ pub fn check_all(h: &History, level: u8, obs: &mut Obs) -> Vec<(Violation, Fault
             push(check_one(h, &f, &r, obs), &f, &mut out);
         }
         for s in 0..8u64 {
-            let f = Fault::Schedule { seed: crate::util::mix(h.hash(), s), max_chunk: [1usize << 16, 4096, 64, 7][s as usize % 4], interrupt_pct: [40u8, 10][s as usize % 2] };
+            let chunk = if big { [1usize << 22, 1 << 20, 1 << 16, 4096][s as usize % 4] } else { [1usize << 16, 4096, 64, 7][s as usize % 4] };
+            let f = Fault::Schedule { seed: crate::util::mix(h.hash(), s), max_chunk: chunk, interrupt_pct: [40u8, 10][s as usize % 2] };
             push(check_one(h, &f, &r, obs), &f, &mut out);
             obs.count("fault_points:schedules", 1);
         }
-        obs.count("long_histories", 1);
+        obs.count(if big { "histories_with_buffers_beyond_1MiB" } else { "long_histories" }, 1);
         return out;
     }
     // under Miri (VH_SMALL) one faulted run costs about a second: a thin but complete slice
